@@ -398,6 +398,35 @@ func runC13(c *Ctx) {
 				}
 			}
 		}
+		// … or in the helper that combines the matches, on the parameter the rule's matches arrive in
+		for _, g := range samePkgClosure(p, fn) {
+			if g == fn {
+				continue
+			}
+			for i, par := range g.Params {
+				if !strings.HasSuffix(par.Type().String(), "HTTPRouteMatch") || !strings.HasPrefix(par.Type().String(), "[]") {
+					continue
+				}
+				fed := false
+				for _, cs := range p.Callers(g) {
+					if cs.Args != nil && i < len(cs.Args) {
+						if t := TermOf(cs.Args[i]); MField("Matches")(t) || t.Any(MField("Matches")) {
+							fed = true
+						}
+					}
+				}
+				if !fed {
+					continue
+				}
+				for _, b := range g.Blocks {
+					for k := range b.Succs {
+						if EdgeFactMatches(b, k, FCmp("==", MLen(func(t *Term) bool { return t.V == ssa.Value(par) }), MConst("0"))) {
+							okEmpty = true
+						}
+					}
+				}
+			}
+		}
 		c.Ob("R13.6", "buildCanaryHeaderHttpRoutes#matchless-rule", fn.Pos(), okEmpty, "a rule without matches is handled explicitly (one empty match)", ifs(!okEmpty, "no branch on len(rule.Matches) == 0: for a match-less rule no combined match is generated"))
 	}
 }
